@@ -434,6 +434,7 @@ func (e *lx) prefix(out *[]string) {
 	}
 }
 
+var c17TwoNumericRe = regexp.MustCompile(`\.\d+\.\d+(\.|$)`)
 var c17PathRe = regexp.MustCompile(`^[a-z_][a-z0-9_]*(\.[a-z0-9_]+)*$`)
 var c17CanonNumRe = regexp.MustCompile(`^(0|[1-9][0-9]*)(\.[0-9]*[1-9])?$`)
 
@@ -667,6 +668,50 @@ func runC17(c *Ctx) {
 			exp = "ok " + hx(migrated[1:])
 		}
 		c.Model("legmig", "legmig "+strings.Join(form, ","), exp, map[string]any{"legacy": legacy, "migrated": migrated})
+	}
+	// K: the mapping of context references against the model, rule by rule and at random
+	{
+		words := []string{"contact", "flow", "step", "parent", "child", "extra", "channel", "date", "uuid", "id", "name", "first_name", "created_on", "language", "groups", "tel_e164", "tel",
+			"twitter", "twitterid", "mailto", "whatsapp", "ext", "display", "path", "scheme", "urn", "value", "category", "text", "time", "attachments", "0", "12", "007", "address", "now", "today",
+			"tomorrow", "yesterday", "color", "age", "1abc", "a_b", "x", "results", "fields", "urns", "input", "webhook", "9"}
+		var refs []string
+		// every rule head with every continuation of up to two words, then random walks
+		for _, a := range words {
+			refs = append(refs, a)
+			for _, b := range words {
+				refs = append(refs, a+"."+b)
+			}
+		}
+		for i := 0; i < c.N(6000, 200000); i++ {
+			k := r.Range(1, 6)
+			var parts []string
+			for j := 0; j < k; j++ {
+				parts = append(parts, Pick(r, words))
+			}
+			if r.Chance(40) {
+				parts = append([]string{Pick(r, []string{"contact", "flow.contact", "step.parent.contact", "child.contact", "flow", "extra.flow", "step", "parent"})}, parts...)
+			}
+			refs = append(refs, strings.Join(parts, "."))
+		}
+		for i, ref := range refs {
+			if ref[0] >= '0' && ref[0] <= '9' {
+				continue // a reference starts with a letter
+			}
+			raw := i%3 == 0
+			var got string
+			desc := map[string]any{"reference": ref, "raw_dates": raw}
+			if c.Guard("K-legref", "panic:migrate-reference", desc, func() { got = expressions.MigrateContextReference(ref, raw) }) {
+				continue
+			}
+			if got == ref && c17TwoNumericRe.MatchString(ref) {
+				// left as it is, and two numeric lookups in a row: the model prints the tree (with the space that keeps them from
+				// reading as one decimal), the implementation returns the text it was given
+				c.Count("legref-unchanged-numeric-pair")
+				continue
+			}
+			c.Eval("legref|" + strings.SplitN(got, ".", 2)[0] + "|" + fmt.Sprint(strings.Count(ref, ".")))
+			c.Model("legref", fmt.Sprintf("legref %s %s", map[bool]string{true: "1", false: "0"}[raw], hx(ref)), "ok "+hx(got), desc)
+		}
 	}
 	// K: the whole visitor against the model (references, literals, every form of + and -, calls through the table)
 	{
